@@ -575,7 +575,7 @@ def run_instance(inst):
     if g is None:
         raise RuntimeError(f"harness {fn} not instrumentable")
     res = dict(name=inst["name"], paths=0, forks=0, obligations=0, discharged=0, validated=0, reached=0,
-               violations=[], known={}, inconclusive=[], mismatches=[], samples=[], unknown=0,
+               violations=[], known={}, inconclusive=[], mismatches=[], samples=[], unknown=0, completions=0,
                wall_s=0.0, exhaustive=True, outcomes={})
     t0 = time.time()
     holder = {}
@@ -608,18 +608,25 @@ def run_instance(inst):
             if kind == "unsupported":
                 res["inconclusive"].append("unsupported: " + out[1][:160])
                 res["exhaustive"] = False
-                # concolic completion: the solver's witness for the part of the path that *was* encoded is run on the
-                # real code (inputs not reached yet get defaults); an obligation failing there is a real violation
+                # concolic completion: solver witnesses for the part of the path that *was* encoded (up to three, made to differ
+                # in as many inputs as possible) are run on the real code (inputs not reached yet get defaults); an obligation
+                # failing there is a real violation.  This is a fallback for cut paths, not an exhaustive decision.
                 try:
-                    m = model if model is not None else eng.model_for_pc(pc)
-                    if m is not None and not ctx.known_hits:
+                    ms = [] if ctx.known_hits else (eng.diverse_models(pc, 3) if res["completions"] < 600 else [])
+                    if not ms and not ctx.known_hits:
+                        m = model if model is not None else eng.model_for_pc(pc)
+                        ms = [m] if m is not None else []
+                    for m in ms:
+                        res["completions"] += 1
                         nat = run_native(fn, params, model_inputs(ctx.decl, m), active, lenient=True)
                         bad = [l for l, ok in nat["checks"] if not ok]
                         if nat["outcome"].startswith("exc:"):
                             bad.append("uncaught:" + nat["outcome"][4:])
-                        if bad and not nat["known"] and len(res["violations"]) < 3:
-                            res["violations"].append(dict(label=bad[0], inputs=enc_inputs(nat["inputs"]), native=nat["outcome"],
-                                                          detail=(nat["detail"] or "") + " [concrete completion of a path the models could not finish]"))
+                        if bad and not nat["known"]:
+                            if len(res["violations"]) < 3:
+                                res["violations"].append(dict(label=bad[0], inputs=enc_inputs(nat["inputs"]), native=nat["outcome"],
+                                                              detail=(nat["detail"] or "") + " [concrete completion of a path the models could not finish]"))
+                            break
                 except (Unsupported, KeyError):
                     pass
                 continue
